@@ -39,10 +39,24 @@ fn shift_op(op: &Op, d: f64) -> Op {
     }
 }
 
+thread_local! {
+    /// when set, every run on this thread copies the instance with clone_from into a used instance of the
+    /// same parameters right after the first input that follows a reset() (source still warming up)
+    static CLONE_FROM_AFTER_RESET: std::cell::Cell<bool> = const { std::cell::Cell::new(false) };
+}
+
 fn run_ops(cfg: &Cfg, ops: &[Op]) -> Option<Vec<Out>> {
+    let via = CLONE_FROM_AFTER_RESET.with(|c| c.get());
     std::panic::catch_unwind(std::panic::AssertUnwindSafe(|| {
         let mut s = make(cfg);
-        ops.iter().map(|o| s.apply(o)).collect::<Vec<Out>>()
+        let mut outs = Vec::with_capacity(ops.len());
+        for (i, o) in ops.iter().enumerate() {
+            outs.push(s.apply(o));
+            if via && i > 0 && matches!(ops[i - 1], Op::Reset) && !matches!(o, Op::Reset) {
+                s = apply_via(cfg, s, Via::CloneFromUsed);
+            }
+        }
+        outs
     }))
     .ok()
 }
@@ -300,6 +314,25 @@ pub fn run(ctx: &Ctx) -> CheckResult {
             }
             for &d in &shifts {
                 if !check_shift(cfg, &ops, &base, d, &mut out) {
+                    return false;
+                }
+            }
+            // streams with reset(): once more with the instance copied by clone_from into a used one right
+            // after the first post-reset input, in the plain and in the transformed run alike
+            if ops.iter().any(|o| matches!(o, Op::Reset)) {
+                CLONE_FROM_AFTER_RESET.with(|c| c.set(true));
+                let ok = match run_ops(cfg, &ops) {
+                    Some(b2) => check_scale(cfg, &ops, &b2, 3.0, &mut out) && check_shift(cfg, &ops, &b2, 100.0, &mut out),
+                    None => {
+                        out.fail(Violation::new(PROP, cfg, &ops, "panic").obs("panic".into()).exp("outputs".into()));
+                        false
+                    }
+                };
+                CLONE_FROM_AFTER_RESET.with(|c| c.set(false));
+                if !ok {
+                    if let Some(v) = out.violations.last_mut() {
+                        v.detail.push_str(" [in both runs the instance was copied with clone_from into a used instance of the same parameters right after the first input following each reset()]");
+                    }
                     return false;
                 }
             }
